@@ -61,6 +61,8 @@ def explorer_units():
         threads.selftest()
     except ImportError:
         pass
+    from . import histories
+    histories.selftest()
     return 0
 
 
